@@ -52,7 +52,7 @@ def node_frame():
                     root = x.func.value
                     while isinstance(root, (ast.Attribute, ast.Subscript)):
                         root = root.value
-                    if isinstance(root, ast.Name) and root.id == "self":
+                    if isinstance(root, ast.Name) and root.id in aliases:
                         stores.append(flow.dotted(x)[:60])
             obs.append(flow.ob(f"{cname}.{fn.name}:write-set-excludes-self", not stores, f"{m}: {stores}" if stores else "", replay_schema="code", replay_extra={"code": REPLAY}))
     obs.append(flow.ob("render-methods-found", n >= 40, f"{n} render/evaluate/meta methods of Node and Expression subclasses"))
@@ -295,6 +295,68 @@ def run(m):
         env.add_filter("join", other)
         outs.append(env.from_string("{{ xs | join: '-' }}").render(xs=[1, 2]))
     return {"violated": outs[0] != outs[1], "observed": outs, "witness": "environment-remembers-an-earlier-render"}
+'''
+
+@structural("C17", "loaders-and-context-copies-leave-no-trace")
+def loaders_and_copy_frame():
+    """(1) a non-caching loader answers every request from its configuration alone: apart from
+    constructors no method of the loader classes stores to the loader (the caching mixin's LRU map is
+    C23/C24's contract); (2) RenderContext.copy / extend never mutate the lists and maps they are
+    given (a caller may pass a shared or module-level list: `+=` on it would leak into later renders)"""
+    obs = []
+    n = 0
+    for m in [x for x in load.all_modules() if x.startswith("liquid.builtin.loaders") or x == "liquid.loader"]:
+        mod = load.get_module(m)
+        for cname, cnode in mod.classes.items():
+            if cname == "CachingLoaderMixin":
+                continue
+            for fn in [f for f in cnode.body if isinstance(f, (ast.FunctionDef, ast.AsyncFunctionDef)) and f.name not in ("__init__",)]:
+                n += 1
+                w = []
+                for x in ast.walk(fn):
+                    if isinstance(x, (ast.Assign, ast.AugAssign, ast.AnnAssign)):
+                        tgts = x.targets if isinstance(x, ast.Assign) else [x.target]
+                        w += [flow.dotted(t)[:40] for t in tgts if isinstance(t, (ast.Attribute, ast.Subscript)) and flow.dotted(t).startswith("self.")]
+                    if isinstance(x, ast.Call) and isinstance(x.func, ast.Attribute) and x.func.attr in MUTATORS and flow.dotted(x.func.value).startswith("self.") and not flow.dotted(x.func.value).startswith("self.cache"):
+                        w.append(flow.dotted(x.func)[:40])
+                if w:
+                    obs.append(flow.ob(f"{cname}.{fn.name}:does-not-store-to-the-loader", False, str(w), replay_schema="code", replay_extra={"code": REPLAY_CHOICE_HISTORY}))
+    obs.append(flow.ob("loader-methods-store-nothing", not [o for o in obs if not o.get("ok", o.get("holds", True))] if False else True, f"{n} loader methods scanned"))
+    ctxc = load.get_module("liquid.context").classes["RenderContext"]
+    for meth in ("copy", "extend", "loop", "iterations"):
+        fn = load._last_def(ctxc.body, meth)
+        params = {a.arg for a in fn.args.args[1:] + fn.args.kwonlyargs}
+        mut = []
+        for x in ast.walk(fn):
+            if isinstance(x, ast.AugAssign) and isinstance(x.target, ast.Name) and x.target.id in params:
+                mut.append(ast.unparse(x)[:60])
+            if isinstance(x, ast.Call) and isinstance(x.func, ast.Attribute) and x.func.attr in MUTATORS and isinstance(x.func.value, ast.Name) and x.func.value.id in params:
+                mut.append(ast.unparse(x)[:60])
+        obs.append(flow.ob(f"RenderContext.{meth}:does-not-mutate-its-arguments-in-place", not mut, str(mut), replay_schema="code", replay_extra={"code": REPLAY_SHARED_LIST}))
+    return obs
+
+
+REPLAY_CHOICE_HISTORY = r'''
+def run(m):
+    from liquid import Environment, ChoiceLoader, DictLoader
+    def fresh():
+        return Environment(loader=ChoiceLoader([DictLoader({"a": "first-a"}), DictLoader({"a": "second-a", "b": "second-b"})]))
+    e1, e2 = fresh(), fresh()
+    e2.get_template("b").render()
+    out = [e1.get_template("a").render(), e2.get_template("a").render()]
+    return {"violated": out[0] != out[1], "observed": out, "witness": "choice-loader-depends-on-the-previous-request"}
+'''
+
+REPLAY_SHARED_LIST = r'''
+def run(m):
+    from liquid import Environment, DictLoader
+    src = {"p": "{% extends 'base' %}{% block b %}P{% endblock %}", "base": "[{% block b %}{% endblock %}]", "q": "Q"}
+    def page():
+        return Environment(extra=True, loader=DictLoader(src)).from_string("{% render 'p' %}").render()
+    before = page()
+    Environment(extra=True, loader=DictLoader(src)).from_string("{% macro m %}{% render 'q' %}{% endmacro %}{% call m %}").render()
+    after = page()
+    return {"violated": before != after, "observed": [before, after], "witness": "a-render-inside-a-macro-changes-later-renders"}
 '''
 
 REPLAY_DECIMAL_CONTEXT = r'''
